@@ -170,7 +170,18 @@ func init() {
 }
 
 func init() {
-	Checks["C13"] = &Check{Level: "model_checking", Run: CheckC13, QuickBudget: 300, ThoroughBudget: 1800}
+	Checks["C13"] = &Check{Level: "model_checking", Run: CheckC13, QuickBudget: 300, ThoroughBudget: 1800,
+		ReplayBody: func(h string) explore.Body {
+			switch h {
+			case "C13s/memory-2-stores":
+				return c13SchedBody(2, false)
+			case "C13s/memory-2-stores-reader":
+				return c13SchedBody(2, true)
+			case "C13s/memory-3-stores":
+				return c13SchedBody(3, false)
+			}
+			return nil
+		}}
 }
 
 func init() {
